@@ -13,8 +13,8 @@ GROUP = dict(name='sim', sources=['h_sim.cpp'],
 
 
 # the sample-mean workers at sizes whose double loops take billions of iterations: optimised build, no sanitizers, thorough tier only
-GROUP_FAST = dict(name='simfast', sources=['h_simfast.cpp'], repo_sources=['mode.cpp', 'sample.cpp', 'util/Pauli.C', 'util/random.C', 'util/true_math.c'],
-                  driver=None, libs=(), flags=('-O2',), sanitize=False, replay_prefix=('o.c06.bign',))
+GROUP_FAST = dict(name='simfast', sources=['h_simfast.cpp'], repo_sources=['mode.cpp', 'sample.cpp', 'square_modulated_mode.cpp', 'util/Pauli.C', 'util/random.C', 'util/true_math.c'],
+                  driver=None, libs=(), flags=('-O2',), sanitize=False, replay_prefix=('o.c06.bign', 'o.c07.bigsquare'))
 
 
 def gen_fast_c06(g, tier):
@@ -22,6 +22,23 @@ def gen_fast_c06(g, tier):
     sizes = [1000, 65537] if tier == 'quick' else [1000, 65535, 65536, 65537, 70001]
     for n in sizes:
         cs.append(Case('o.c06.bign %d %d %s' % (n, g.choice([0, 1]), dhex(g.r.uniform(0.2, 3))), 'orc', 'worker-size-%s' % ('big' if n > 4096 else 'moderate'), check=small_hex_check(1e-4)))   # 4e9 terms are summed naively: the sum itself carries about 1e-7
+    return cs
+
+
+def gen_fast_c07(g, tier):
+    """the lag-correlation table of the rectangular model against an independent count, up to sample sizes for which the code's
+    own n^2 table takes gigabytes (thorough tier, only when the machine has the memory)"""
+    cs = []
+    pairs = [(4, 6), (16, 40), (257, 1028), (1000, 3000), (96, 1000)]
+    if tier != 'quick':
+        pairs += [(2048, 8192), (4097, 12291)]
+        try:
+            avail = [int(l.split()[1]) for l in open('/proc/meminfo') if l.startswith('MemAvailable')][0] // (1024 * 1024)
+        except Exception:
+            avail = 0
+        if avail >= 20: pairs += [(16385, 32770)]        # 8.6 GB for the code's table
+    for w, n in pairs:
+        cs.append(Case('o.c07.bigsquare %d %d' % (w, n), 'orc', 'rectangular-table-%s' % ('huge' if n > 32768 else 'large'), check=small_hex_check(1e-12)))
     return cs
 
 
@@ -66,6 +83,11 @@ def gen_C01(g, tier):
         dev = [g.choice(NODES) for _ in range(4)] if g.random() < 0.5 else [f32(g.r.gauss(0, 1)) for _ in range(4)]
         cs.append(Case('md.field %s %s' % (hexes(s), hexes(dev)), 'cmp', t))
         cs.append(Case('o.c01.moments %s' % hexes(s), 'orc', t, check=flags_then_small(1, 1e-12)))
+    # lags far beyond any correlation length, up to the largest unsigned value
+    for s_ in mids_for_lags(g)[:4 if tier == 'quick' else 40]:
+        for tag, kind in mode_kinds(g):
+            if kind is None: kind = 'square %s %d %d' % (dhex(0.5), g.randint(2, 5), g.randint(1, 6))
+            cs.append(Case('o.c01.lags %s %s' % (hexes(s_), kind), 'orc', 'lags-up-to-unsigned-max-' + tag, check=small_hex_check(1e-300)))
     # the process-wide polarization basis is a configuration: the ensemble coherency matrix is convert(S) in every basis
     mids = [s for _, s in stokes_family(g, 4) if 1e-6 < s[0] < 1e6]
     for s in mids[:12 if tier == 'quick' else 200]:
@@ -131,6 +153,10 @@ def mode_kinds(g):
             ('square', None)]
 
 
+def mids_for_lags(g):
+    return [s for _, s in stokes_family(g, 4) if 1e-6 < s[0] < 1e6]
+
+
 def gen_C06(g, tier):
     cs = []
     sizes = list(range(1, 41)) + [63, 64, 65, 255, 256, 257, 1000, 4095, 4096, 65535, 65536, 65537, 100000]
@@ -144,6 +170,13 @@ def gen_C06(g, tier):
             for lag in range(0, 4):
                 cs.append(Case('sm.xcov %d %d %s %d %s' % (n, lag, dhex(cv), k, hexes(xs)), 'cmp', 'xcov-lag%d' % lag, check=finite_all))
             cs.append(Case('sm.single %d %s %d %s' % (n, dhex(cv), k, hexes(xs)), 'cmp', 'single-stub'))
+            if n <= 24:
+                # lag sequences with exact zeros inside their support (interleaved independent streams, a single non-zero lag)
+                for gx in ([0.0 if i % 2 == 1 else x for i, x in enumerate(xs)], [x if i == len(xs) - 1 else 0.0 for i, x in enumerate(xs)],
+                           [0.0 if i % 3 != 0 else x for i, x in enumerate(xs)], [0.0] + list(xs[1:])):
+                    for lag in (0, 1, 2):
+                        cs.append(Case('sm.xcov %d %d %s %d %s' % (n, lag, dhex(cv), k, hexes(gx)), 'cmp', 'xcov-gapped-sequence', check=finite_all))
+                        cs.append(Case('o.c06.worker %d %d %d %s %d %s' % (n, n, lag, dhex(cv), k, hexes(gx)), 'orc', 'worker-gapped-sequence', check=small_hex_check(1e-12)))
             if n <= 40:
                 for m in (n, n + 3, max(1, n - 1), 1, 2 * n + 1):
                     cs.append(Case('o.c06.worker %d %d %d %s %d %s' % (n, m, g.randint(0, 3), dhex(cv), k, hexes(xs)), 'orc', 'worker-from-object-with-other-size', check=small_hex_check(1e-12)))
@@ -297,6 +330,16 @@ def gen_C08(g, tier):
         while len(pat) < n:
             pat += [g.choice('AB')] * g.randint(1, 12)
         cs.append(Case('o.c08.pairing %s' % ''.join(pat[:n]), 'orc', 'pairing-long'))
+    # neutral calls in the middle of an interleaving in which one mode is ahead
+    for _ in range(8 if tier == 'quick' else 200):
+        lead = g.randint(1, 6); first = g.choice('AB'); other = 'B' if first == 'A' else 'A'
+        pat = first * lead + ''.join(g.choice('AB') for _ in range(g.randint(0, 4))); at = len(pat)
+        pat += other * (lead + g.randint(0, 3)) + ''.join(g.choice('AB') for _ in range(g.randint(2, 8)))
+        ndraw = max(pat.count('A'), pat.count('B'))
+        devs = [f32(g.r.gauss(0, 1)) for _ in range(2 * ndraw + 4)]
+        for what in (0, 1, 2, 3):
+            cs.append(Case('o.c08.neutral %s %s %s %s %d %d %s' % (dhex(g.choice([0.3, -0.2, 0.0, 0.5])), dhex(g.choice([0.5, 1.0])), dhex(g.choice([0.5, 0.8])), pat, at, what, hexes(devs)),
+                           'orc', 'neutral-call-while-one-mode-is-ahead'))
     # one consumer far ahead of the other (queues of tens of thousands of pending factors)
     for lead in ([65537, 200000] if tier == 'quick' else [1000, 65535, 65536, 65537, 70000, 200000, 1048577]):
         for first in 'AB':
